@@ -50,9 +50,11 @@ structure Inst where
   cancelAt : Option Tick     -- first `daemon.task.cancel()` by the stopping logic
   abandonAt : Option Tick    -- when DAEMON_ABANDONED was set (ghost)
   kstarts : List Tick        -- start times of `stop_daemon` coroutines of the daemon killer (ghost)
+  since : Tick               -- when the instance was put into `running_daemons` (ghost)
   deriving DecidableEq, Repr
 
-def Inst.fresh : Inst := { reasons := [], when := none, cancelAt := none, abandonAt := none, kstarts := [] }
+def Inst.fresh (now : Tick) : Inst :=
+  { reasons := [], when := none, cancelAt := none, abandonAt := none, kstarts := [], since := now }
 
 /-- `FlagSetter.set(reason)` at loop time `now`. -/
 def Inst.set (i : Inst) (r : Reason) (now : Tick) : Inst :=
@@ -68,9 +70,12 @@ structure St where
   known : Bool               -- the memory is in `memories._items` (reachable by the daemon killer / next events)
   live : Nat                 -- ghost: `_runner` tasks of this id that have not ended
   spawns : Nat               -- ghost: how many instances were ever created
+  paused : Option Tick       -- `operator_paused` is on since that moment (the daemon killer's rounds: p, p+64, …)
+  killerDone : Bool          -- the daemon killer has done its exit sweep (its `finally:`) and is gone
   deriving DecidableEq, Repr
 
-def St.init (t0 : Tick) : St := { now := t0, run := none, forever := false, known := true, live := 0, spawns := 0 }
+def St.init (t0 : Tick) : St :=
+  { now := t0, run := none, forever := false, known := true, live := 0, spawns := 0, paused := none, killerDone := false }
 
 /-! ### The stage chain of `stop_daemons` (tied to the source by the translator) -/
 
@@ -206,7 +211,7 @@ def applyOut (s : St) : Out → St × List Tick
 
 /-- `spawn_daemons` for one handler: a new `Daemon` with a fresh stopper and a new runner task. -/
 def spawn (s : St) : St :=
-  { s with run := some Inst.fresh, live := s.live + 1, spawns := s.spawns + 1 }
+  { s with run := some (Inst.fresh s.now), live := s.live + 1, spawns := s.spawns + 1 }
 
 def stopIf (c : Cfg) (s : St) (cond : Bool) (r : Reason) (ex : Ex) : St × List Tick :=
   match cond, s.run with
@@ -224,6 +229,48 @@ def cycle (c : Cfg) (inp : CycIn) (s : St) : St × List Tick :=
     let (s3, dp) := stopIf c s2 inp.paused .pausing inp.ex2        -- pause_daemons (strictly after spawning)
     (s3, dm ++ dp)
 
+/-! ### The killer's periodic re-sweep while the operator is paused, and the urgency of its timers -/
+
+/-- `async with asyncio.timeout(1.0): await operator_paused.wait_for(False)`: while paused, the killer
+    repeats its sweep every second (64 ticks); the sweep itself takes no time. -/
+def killerPeriod : Tick := 64
+
+/-- One round of the pausing loop for one listed daemon: `stop_daemon(OPERATOR_PAUSING)` is spawned
+    UNCONDITIONALLY — also for a daemon that already carries OPERATOR_PAUSING because `pause_daemons`
+    set it in a processing cycle (the #1266 safeguard). That cycle cannot escalate: its delays lead to
+    a touch whose event never arrives while the streams are paused; the re-sweeps are what cancels. -/
+def sweepSpawns (_i : Inst) : Bool := true
+
+/-- The first round at or after `t`, rounds being at `p`, `p + 64`, `p + 128`, … (pause toggled at `p`). -/
+def nextRound (p t : Tick) : Tick := p + ((t - p + 63) / 64) * 64
+
+/-- `t` is a round of the killer's pausing loop started at `p`. -/
+def isRound (p t : Tick) : Bool := decide (p ≤ t) && decide ((t - p) % 64 = 0)
+
+/-- The first round strictly after `t` (and not before `p`): the first sweep that surely lists a daemon that
+    is in `running_daemons` since `t`. -/
+def firstDue (p t : Tick) : Tick := if t < p then p else p + ((t - p) / 64 + 1) * 64
+
+/-- asyncio fires due timers: may the clock advance by `d` from `s`? Not past a stage of a running
+    `stop_daemon` coroutine that has not happened yet (its `aiotasks.wait(..., timeout=backoff / timeout)`
+    returns at the deadline and the stage is done at once), and — while paused — not past a round of the
+    killer that has not yet started `stop_daemon` for a daemon that was listed before that round. -/
+def tickOk (c : Cfg) (s : St) (d : Nat) : Bool :=
+  match s.run with
+  | none => true
+  | some i =>
+    i.kstarts.all (fun st =>
+      (!c.timeout.isSome || i.cancelAt.isSome || decide (s.now + d ≤ st + c.b0)) &&
+      (i.abandonAt.isSome || decide (s.now + d ≤ st + c.b0 + c.t0))) &&
+    (match s.paused with
+     | some p =>
+       if s.known && !s.killerDone then
+         let r := nextRound p s.now              -- the first round at or after now
+         if decide (r ∈ i.kstarts) || decide (r ≤ i.since) then decide (s.now + d ≤ r + killerPeriod)
+         else decide (s.now + d ≤ r)
+       else true
+     | none => true)
+
 /-! ### The transition system -/
 
 inductive Label where
@@ -234,10 +281,16 @@ inductive Label where
   | kSignal (start : Tick)       -- … its DAEMON_SIGNALLED stage
   | kCancel (start : Tick)       -- … its DAEMON_CANCELLED stage (after awaiting the backoff)
   | kAbandon (start : Tick)      -- … its DAEMON_ABANDONED stage (after awaiting the timeout)
+  | pause                        -- `operator_paused` turns on (peering): the killer's pausing loop starts its rounds
+  | resume                       -- `operator_paused` turns off
+  | kFinal                       -- the killer's exit sweep (`finally:`) is over: no `stop_daemon` is started any more
   deriving DecidableEq, Repr
 
 def step (c : Cfg) (s : St) : Label → Option St
-  | .tick d => some { s with now := s.now + d }
+  | .tick d => if tickOk c s d then some { s with now := s.now + d } else none
+  | .pause => if s.paused.isNone && !s.killerDone then some { s with paused := some s.now } else none
+  | .resume => if s.paused.isSome then some { s with paused := none } else none
+  | .kFinal => some { s with killerDone := true }
   | .cycle inp => if s.known then some (cycle c inp s).1 else none   -- no event follows a uid's DELETED event
   | .exit =>
     match s.run with
@@ -246,7 +299,9 @@ def step (c : Cfg) (s : St) : Label → Option St
   | .kBegin r =>
     match s.run with
     | some i =>
-      if s.known && (r == .pausing || r == .exiting) then
+      -- pausing: only in a round of the pausing loop; exiting: the exit sweep; never after the killer is gone
+      if s.known && !s.killerDone &&
+          ((r == .pausing && (match s.paused with | some p => isRound p s.now | none => false)) || r == .exiting) then
         some { s with run := some { i.set r s.now with kstarts := s.now :: i.kstarts } }
       else none
     | none => none
@@ -319,21 +374,6 @@ def iterLive (size0 : Nat) : Nat → List Nat → IterRes
     if sz ≠ size0 then .raised
     else if size0 ≤ pos then .finished
     else iterLive size0 (pos + 1) rest
-
-/-! ### The killer's periodic re-sweep while the operator is paused -/
-
-/-- `async with asyncio.timeout(1.0): await operator_paused.wait_for(False)`: while paused, the killer
-    repeats its sweep every second (64 ticks); the sweep itself takes no time. -/
-def killerPeriod : Tick := 64
-
-/-- One round of the pausing loop for one listed daemon: `stop_daemon(OPERATOR_PAUSING)` is spawned
-    UNCONDITIONALLY — also for a daemon that already carries OPERATOR_PAUSING because `pause_daemons`
-    set it in a processing cycle (the #1266 safeguard). That cycle cannot escalate: its delays lead to
-    a touch whose event never arrives while the streams are paused; the re-sweeps are what cancels. -/
-def sweepSpawns (_i : Inst) : Bool := true
-
-/-- The first round at or after `t`, rounds being at `p`, `p + 64`, `p + 128`, … (pause toggled at `p`). -/
-def nextRound (p t : Tick) : Tick := p + ((t - p + 63) / 64) * 64
 
 /-! ### Micro-steps of `_timer`'s control flow -/
 
@@ -536,38 +576,5 @@ def dsettles (initialDelay : Option Tick) (yielding : Bool) (e : TEnv) (os : Nat
     was never asked to stop is running and no daemon-killer coroutine works on it (finding F10). -/
 def Orphan (s : St) : Prop := s.known = false ∧ ∀ i, s.run = some i → i.reasons = [] ∧ i.kstarts = []
 
-/-- Where the daemon killer stands with respect to its round at time `r` for this daemon. -/
-inductive Duty where
-  | waiting     -- the round at `r` has not started `stop_daemon` for it yet
-  | begun       -- `stop_daemon` runs: reason set, awaiting the backoff
-  | served      -- its cancellation stage is done
-  deriving DecidableEq, Repr
-
-def Duty.next (r : Tick) (d : Duty) (s : St) (l : Label) : Duty :=
-  if d = .waiting ∧ l = .kBegin .pausing ∧ s.now = r then .begun      -- the round at `r` reaches this daemon
-  else if d = .begun ∧ l = .kCancel r then .served                    -- that coroutine's cancellation stage
-  else d
-
-/-- `Dutiful c r d s ls`: along the labels `ls` from `s` the daemon killer does what its code does when
-    its time comes — asyncio timers fire when due: time does not pass `r` (the round) while this
-    daemon is listed (instance running, memory known) and the round has not started `stop_daemon` for
-    it; and time does not pass `r + backoff` while the instance runs and that coroutine has not done
-    its cancellation stage. Nothing else is assumed about the run: cycles, other killer coroutines,
-    the instance ending, any time steps. -/
-def Duty.allows (c : Cfg) (r : Tick) (d : Duty) (s : St) : Label → Prop
-  | .tick n =>
-    match d with
-    | .waiting => s.now + n ≤ r ∨ s.known = false ∨ s.run = none
-    | .begun => s.now + n ≤ r + c.b0 ∨ s.run = none
-    | .served => True
-  | _ => True
-
-def Dutiful (c : Cfg) (r : Tick) : Duty → St → List Label → Prop
-  | _, _, [] => True
-  | d, s, l :: ls =>
-    d.allows c r s l ∧
-    (match step c s l with
-     | some s' => Dutiful c r (d.next r s l) s' ls
-     | none => True)
 
 end Kopf.C09
